@@ -86,10 +86,24 @@ def main():
     for m in pkgutil.iter_modules(props.__path__):
         try:
             mod = importlib.import_module(f"bsa.props.{m.name}")
+            if m.name.startswith("_"):
+                continue              # shared helper module of several checkers, not a checker
             assert hasattr(mod, "check")
             n += 1
         except Exception as e:   # noqa
             print(f"SETUP-ERROR props.{m.name}: {type(e).__name__}: {e}")
             ok = False
+    # the layers every rule now depends on must load, and the frozen inventory must be readable
+    try:
+        from . import normalize, sym
+        inv = normalize.load_inventory()
+        assert len(inv["functions"]) > 600, "reference/inventory.json looks truncated"
+        it = sym.Interp()
+        import ast as _ast
+        ps = it.run(_ast.parse("x = a + 1\nif x > a:\n    y = 1\nelse:\n    y = 2").body, sym.PathState({"a": sym.S("int:a")}, [], []))
+        assert len(ps) == 1 and ps[0].get("y") == 1, "term interpreter: linear comparison not decided"
+    except Exception as e:   # noqa
+        print(f"SETUP-ERROR normal form / term interpreter: {type(e).__name__}: {e}")
+        ok = False
     print(f"setup: {'ok' if ok else 'FAILED'} ({n} property checkers importable)")
     return 0 if ok else 1
